@@ -300,4 +300,5 @@ KNOWN_PREDICATES = {"day_designator_with_minute_or_second_no_hour": _f9}
 
 
 def ops():
-    return [AddTrunc()]
+    import truncqops
+    return [AddTrunc(), truncqops.AddTruncQOp()]
